@@ -214,3 +214,43 @@ def compare_vf(obs, ref, rnd, mp, n_points=6, vectorized=False, mech=None, pertu
                                f"reference {e!r} (abs err {err:.3e}); params perturbed={pt > 0}")
             worst = max(worst, err)
     return pos, worst
+
+
+# ---------------------------------------------------------------------------------------------------------------------
+# simulations
+# ---------------------------------------------------------------------------------------------------------------------
+
+def run_model(spec, T, dt, solver='euler', dts=None, cutoff=0.0, outputs=None, backend='default', vectorize=False,
+              inputs=None, template=None, style=None, **kw):
+    """CircuitTemplate.run on a fresh template.  outputs: dict name -> path, or list of paths."""
+    if template is None:
+        template, _ = build.build_python(spec, style=style)
+    kw.setdefault('float_precision', 'float64')
+    kw.setdefault('clear', True)
+    res = template.run(simulation_time=T, step_size=dt, sampling_step_size=dts, cutoff=cutoff, solver=solver,
+                       outputs=outputs, backend=backend, vectorize=vectorize, inputs=inputs, verbose=False, **kw)
+    return res
+
+
+def ref_trajectory(ref, keys, steps, dt, heun=False, input_fn=None, stage2='same', p=None):
+    """Reference fixed-step iterates: array (steps, len(keys)), row k = value at step k (before the update)."""
+    rec, _ = ref.euler(steps, dt, record=keys, heun=heun, input_fn=input_fn, p=p, stage2=stage2)
+    return np.array(rec, dtype=float).reshape(steps, len(keys))
+
+
+def compare_traj(got, exp, rtol=1e-7, label=''):
+    """max-abs comparison column by column with a scale-aware tolerance; returns message or None."""
+    got = np.asarray(got, dtype=float)
+    exp = np.asarray(exp, dtype=float)
+    if got.shape != exp.shape:
+        return f"{label}shape {got.shape} != expected {exp.shape}"
+    if not np.all(np.isfinite(exp)):
+        return 'discard'
+    for j in range(exp.shape[1]):
+        scale = max(1.0, float(np.max(np.abs(exp[:, j]))))
+        err = np.abs(got[:, j] - exp[:, j])
+        k = int(np.argmax(err)) if err.size else 0
+        if err.size and not err[k] <= rtol * scale:
+            return (f"{label}column {j}: row {k} is {got[k, j]!r}, reference {exp[k, j]!r} (abs err {err[k]:.3e}, "
+                    f"scale {scale:.3g}); first rows got {got[:3, j].tolist()} ref {exp[:3, j].tolist()}")
+    return None
